@@ -167,6 +167,8 @@ func (o *observer) HandleInstanceDisposed(directive.Instance) {}
 //
 //	start / shutdown   of controller c (start after shutdown = the controller is executed again)
 //	est / lost         HandleLinkEstablished / HandleLinkLost of link id on controller c
+//	estvia             HandleLinkEstablished called on the TransportHandler of execution g of controller c
+//	                   (g < current execution: the closed transport of a previous execution still reports)
 //	reuuid             the link object's GetUUID starts returning uuid (no controller call)
 //	batch              per-goroutine sequences of est/lost fired concurrently
 type op struct {
@@ -176,6 +178,7 @@ type op struct {
 	uuid  uint64
 	rem   int
 	lp    int
+	g     int // estvia: the execution (1 = first start) whose TransportHandler reports the link
 	batch [][]op
 	// gate (batch only): the controller lock is held (by the completion hook of a no-op loss
 	// report) while the goroutines deliver their first events, so that all of them queue up
@@ -190,6 +193,8 @@ func (o op) String() string {
 		return "start:" + strconv.Itoa(o.lp)
 	case "shutdown":
 		return "shutdown"
+	case "estvia":
+		return fmt.Sprintf("estvia:%d:%d:%d:%d", o.g, o.id, o.uuid, o.rem)
 	}
 	return fmt.Sprintf("%s:%d:%d:%d", o.kind, o.id, o.uuid, o.rem)
 }
@@ -378,13 +383,24 @@ func replaySpec(ops []op) specResult {
 	uu := map[int]uint64{}
 	running := false
 	lp := 0
+	gen := 0
 	everLost := map[int]bool{}
 	for _, o := range ops {
+		if o.kind == "estvia" {
+			// a link reported by the transport of a previous execution (which has exited) is closed and
+			// never entered; through the handler of the running execution it is an ordinary report
+			if !running || o.g != gen {
+				closed[o.id] = true
+				continue
+			}
+			o.kind = "est"
+		}
 		switch o.kind {
 		case "start":
 			if !running {
 				running = true
 				lp = o.lp
+				gen++
 			}
 		case "shutdown":
 			running = false
@@ -454,6 +470,7 @@ type ctl struct {
 	ctrl      *transport_controller.Controller
 	mtx       sync.Mutex
 	handler   transport.TransportHandler
+	handlers  []transport.TransportHandler // one per execution, in order
 	handlerCh chan struct{}
 	cancel    context.CancelFunc
 	done      chan struct{}
@@ -501,17 +518,20 @@ func (w *world) getLink(o op) *fakeLink {
 	return l
 }
 
-func (w *world) newCtl(idx, lp int, pid peer.ID) *ctl {
+// newCtl: pid is the identity the controller must end up with; lookup is the peer id constraint it is
+// constructed with ("" = whatever peer the bus has: the identity is then known only from the key).
+func (w *world) newCtl(idx, lp int, pid, lookup peer.ID) *ctl {
 	c := &ctl{idx: idx, lp: lp, pid: pid, handlerCh: make(chan struct{}, 4)}
 	ctor := func(cctx context.Context, le *logrus.Entry, pkey crypto.PrivKey, h transport.TransportHandler) (transport.Transport, error) {
 		c.mtx.Lock()
 		c.handler = h
+		c.handlers = append(c.handlers, h)
 		c.mtx.Unlock()
 		c.handlerCh <- struct{}{}
 		return &fakeTransport{pid: pid, uuid: 99 + uint64(idx)}, nil
 	}
 	info := controller.NewInfo("verif/fake-transport-"+strconv.Itoa(idx), semver.MustParse("0.0.1"), "fake transport")
-	c.ctrl = transport_controller.NewController(w.e.le, w.tb.Bus, info, pid, false, ctor)
+	c.ctrl = transport_controller.NewController(w.e.le, w.tb.Bus, info, lookup, false, ctor)
 	return c
 }
 
@@ -951,9 +971,23 @@ func (e *engine) runHistory(ops []op, gen string) {
 		defer pref.Release()
 		w.pids[peerB] = np.GetPeerID()
 	}
-	w.ctls[0] = w.newCtl(0, peerA, w.pids[peerA])
+	// one identity on the bus: every other history constructs the controller WITHOUT a peer id constraint
+	// (its identity — the self-link check, the source filter — then comes from the key alone)
+	lookupA := w.pids[peerA]
+	if !two && e.rng.Intn(2) == 0 {
+		lookupA = ""
+	}
+	w.ctls[0] = w.newCtl(0, peerA, w.pids[peerA], lookupA)
 	if two {
-		w.ctls[1] = w.newCtl(1, peerB, w.pids[peerB])
+		// the second transport has the second identity — or, if its start op says so, the SAME identity
+		lpB := peerB
+		for _, o := range ops {
+			if o.kind == "start" && o.c == 1 {
+				lpB = o.lp
+				break
+			}
+		}
+		w.ctls[1] = w.newCtl(1, lpB, w.pids[lpB], w.pids[lpB])
 	}
 	srcsAll := []int{0, 1, 2}
 	dsts := []int{1, 2, 3}
@@ -1000,6 +1034,54 @@ func (e *engine) runHistory(ops []op, gen string) {
 				continue
 			}
 			w.issue(o)
+			c.seq = append(c.seq, o)
+		case "estvia":
+			c := w.ctls[o.c]
+			c.mtx.Lock()
+			n := len(c.handlers)
+			var h transport.TransportHandler
+			if o.g >= 1 && o.g <= n {
+				h = c.handlers[o.g-1]
+			}
+			c.mtx.Unlock()
+			if h == nil {
+				continue
+			}
+			fl := w.getLink(o)
+			if o.g == n && c.cancel != nil {
+				// the handler of the running execution: an ordinary report, awaited through the hook
+				ch := w.rec.expect("est", fl)
+				h.HandleLinkEstablished(fl)
+				select {
+				case <-ch:
+				case <-time.After(opTimeout):
+					w.stuck = "HandleLinkEstablished critical section did not complete"
+				}
+			} else {
+				// a stale handler: Await returns either the cancellation (no critical section) or the old
+				// transport (critical section); not awaited through the hook — what the property asks for is
+				// observable on the link itself: it gets closed (and the tables are compared at the end)
+				mk := w.rec.mark()
+				h.HandleLinkEstablished(fl)
+				dl := time.Now().Add(w.e.patience())
+				for !fl.isClosed() && time.Now().Before(dl) {
+					entered := false
+					for _, ev := range w.rec.since(mk) {
+						if ev.kind == "est" && ev.l == fl {
+							entered = true
+						}
+					}
+					if entered {
+						// its critical section has run; Close() follows on its own goroutine if the link was refused
+						t2 := time.Now().Add(20 * time.Millisecond)
+						for !fl.isClosed() && time.Now().Before(t2) {
+							time.Sleep(100 * time.Microsecond)
+						}
+						break
+					}
+					time.Sleep(100 * time.Microsecond)
+				}
+			}
 			c.seq = append(c.seq, o)
 		case "batch":
 			w.runBatch(o)
@@ -1081,6 +1163,7 @@ func (e *engine) runHistory(ops []op, gen string) {
 			var got string
 			var bad string
 			dl := time.Now().Add(e.patience())
+			extended := false
 			for {
 				ob.mtx.Lock()
 				var ids []string
@@ -1102,10 +1185,7 @@ func (e *engine) runHistory(ops []op, gen string) {
 					for id, l := range w.links {
 						if l.openCount() != before[id] {
 							if two {
-								lpIdx := peerA
-								if l.ctl == 1 {
-									lpIdx = peerB
-								}
+								lpIdx := w.ctls[l.ctl].lp
 								ids = append(ids, fmt.Sprintf("%d:%d", lpIdx, id))
 								if ml.GetLocalPeer() != w.ctls[l.ctl].pid {
 									bad = fmt.Sprintf("the value wrapping link %d reports another local peer than the link's transport", id)
@@ -1130,7 +1210,51 @@ func (e *engine) runHistory(ops []op, gen string) {
 				} else {
 					got = "ok " + strings.Join(ids, ",")
 				}
-				if got == rm || time.Now().After(dl) {
+				// completeness and multiplicity, stated on the observation and the history alone: the request
+				// S -> D yields EVERY link established and not yet lost between S (any running local identity if
+				// S is unspecified) and D, each once
+				incomplete := ""
+				have := map[string]int{}
+				for _, id := range ids {
+					have[id]++
+					if have[id] == 2 {
+						incomplete = fmt.Sprintf("request %d->%d yields link %s twice", ob.src, ob.dst, id)
+					}
+				}
+				for _, c := range w.ctls {
+					if c == nil || c.cancel == nil || (ob.src != 0 && ob.srcID != c.pid) {
+						continue
+					}
+					for id := range replaySpec(c.seq).live {
+						w.linksMtx.Lock()
+						l := w.links[id]
+						w.linksMtx.Unlock()
+						if l == nil || l.remote != ob.dstID {
+							continue
+						}
+						tok := strconv.Itoa(id)
+						if two {
+							tok = fmt.Sprintf("%d:%d", c.lp, id)
+						}
+						if have[tok] == 0 {
+							incomplete = fmt.Sprintf("request for a link %d->%d does not yield link %d, which is established with peer %d and not lost", ob.src, ob.dst, id, ob.dst)
+						}
+					}
+				}
+				if got == rm && incomplete == "" {
+					break
+				}
+				if time.Now().After(dl) {
+					if incomplete != "" && !extended {
+						// a completeness / multiplicity verdict must persist: value emission and retraction are
+						// asynchronous (and the patience is cut once a run has disagreements); settle longer, once
+						extended = true
+						dl = time.Now().Add(3 * time.Second)
+						continue
+					}
+					if bad == "" {
+						bad = incomplete
+					}
 					break
 				}
 				time.Sleep(200 * time.Microsecond)
@@ -1151,9 +1275,27 @@ func (e *engine) runHistory(ops []op, gen string) {
 				ids := map[int]bool{}
 				bad := ""
 				for _, l := range c.ctrl.GetPeerLinks(w.peerOf(p)) {
+					if ids[l.(*fakeLink).id] {
+						bad = fmt.Sprintf("GetPeerLinks(peer %d) returned link %d twice", p, l.(*fakeLink).id)
+					}
 					ids[l.(*fakeLink).id] = true
 					if l.GetRemotePeer() != w.peerOf(p) {
 						bad = "GetPeerLinks returned a link to another peer"
+					}
+				}
+				// the statement itself: the links reported for p = the links established and not yet lost with p
+				sp := replaySpec(c.seq)
+				for id := range sp.live {
+					w.linksMtx.Lock()
+					l := w.links[id]
+					w.linksMtx.Unlock()
+					if l != nil && l.remote == w.peerOf(p) && !ids[id] && bad == "" {
+						bad = fmt.Sprintf("GetPeerLinks(peer %d) does not report link %d, which is established and not lost", p, id)
+					}
+				}
+				for id := range ids {
+					if !sp.live[id] && bad == "" && !(sp.everLost[id] && gen == "est-after-lost") {
+						bad = fmt.Sprintf("GetPeerLinks(peer %d) reports link %d, which is not among the links established and not yet lost", p, id)
 					}
 				}
 				e.rep.Compare(gop, gm, "ok "+idsOf(ids), "get", "links.get", bad)
@@ -1423,11 +1565,25 @@ func (e *engine) genRestart() ([]op, string) {
 	}
 	var old []ld
 	rounds := 2 + e.rng.Intn(2)
+	stale := 0
 	for r := 0; r < rounds; r++ {
 		ls := mk(10 * r)
 		est := map[int]bool{}
 		lost := map[int]bool{}
 		for k := 0; k < 2+e.rng.Intn(8); k++ {
+			// the transport of a PREVIOUS execution reports a fresh link through its own handler (execution
+			// r+1 is running): same uuids / peers as the links of the running execution; it must be closed
+			// and never entered. Sometimes the report goes through the CURRENT handler by number instead.
+			if r > 0 && (k == 1 || e.rng.Intn(4) == 0) && stale < 9 {
+				l := ls[e.rng.Intn(len(ls))]
+				g := 1 + e.rng.Intn(r)
+				if e.rng.Intn(6) == 0 {
+					g = r + 1
+				}
+				ops = append(ops, op{kind: "estvia", g: g, id: 80 + stale, uuid: l.uuid, rem: l.rem})
+				stale++
+				continue
+			}
 			// late losses of link objects of the PREVIOUS execution (same uuids as the new ones)
 			if len(old) != 0 && e.rng.Intn(4) == 0 {
 				l := old[e.rng.Intn(len(old))]
@@ -1454,6 +1610,11 @@ func (e *engine) genRestart() ([]op, string) {
 			l := ls[e.rng.Intn(len(ls))]
 			ops = append(ops, op{kind: "est", id: 60 + 10*r + l.id%10, uuid: l.uuid, rem: l.rem})
 			ops = append(ops, op{kind: "lost", id: l.id, uuid: l.uuid, rem: l.rem})
+			if e.rng.Intn(2) == 0 && stale < 9 {
+				// … and so is one reported through the handler of any execution so far
+				ops = append(ops, op{kind: "estvia", g: 1 + e.rng.Intn(r+1), id: 80 + stale, uuid: l.uuid, rem: l.rem})
+				stale++
+			}
 		}
 		if r < rounds-1 {
 			ops = append(ops, op{kind: "start", lp: 1})
@@ -1465,7 +1626,12 @@ func (e *engine) genRestart() ([]op, string) {
 
 // genTwo: two controllers (two identities, two transports) on the same bus.
 func (e *engine) genTwo() ([]op, string) {
-	ops := []op{{kind: "start", c: 0, lp: peerA}, {kind: "start", c: 1, lp: peerB}}
+	// every third history: both transports have the SAME identity (one key, two transports on one bus)
+	lpB := peerB
+	if e.rng.Intn(3) == 0 {
+		lpB = peerA
+	}
+	ops := []op{{kind: "start", c: 0, lp: peerA}, {kind: "start", c: 1, lp: lpB}}
 	if e.rng.Intn(2) == 0 {
 		ops[0], ops[1] = ops[1], ops[0]
 	}
@@ -1483,7 +1649,7 @@ func (e *engine) genTwo() ([]op, string) {
 			}
 			r := rems[e.rng.Intn(len(rems))]
 			if e.rng.Intn(10) == 0 {
-				r = []int{peerA, peerB}[c] // self link
+				r = []int{peerA, lpB}[c] // self link
 			}
 			// both transports use the same uuids: they are independent tables
 			ls = append(ls, cl{c, ld{10*c + i, uint64(7 + e.rng.Intn(3)), r}})
@@ -1666,9 +1832,20 @@ func (e *engine) run() {
 		// restart: the tables of the previous execution are gone, late losses of its links are no-ops
 		{"restart", []op{start, L("est", 1, 7, 2), L("est", 2, 8, 3), {kind: "shutdown"}, start, L("est", 11, 7, 2), L("lost", 1, 7, 2), L("lost", 2, 8, 3)}},
 		{"restart", []op{start, L("est", 1, 7, 2), {kind: "shutdown"}, L("est", 61, 7, 2), start, L("est", 11, 8, 2), {kind: "shutdown"}, start, L("est", 21, 8, 3)}},
+		// restart, and the transport of the FIRST execution keeps reporting through its own handler: fresh
+		// links with the uuid of a live link, of no link, while down; all closed, none entered; a report by
+		// number through the handler of the running execution is an ordinary one
+		{"restart", []op{start, L("est", 1, 7, 2), {kind: "shutdown"}, start, L("est", 11, 7, 2),
+			{kind: "estvia", g: 1, id: 81, uuid: 7, rem: 2}, {kind: "estvia", g: 1, id: 82, uuid: 8, rem: 3}, {kind: "estvia", g: 1, id: 83, uuid: 7, rem: 2},
+			{kind: "estvia", g: 1, id: 84, uuid: 9, rem: 2}, {kind: "estvia", g: 1, id: 85, uuid: 7, rem: 2}, {kind: "estvia", g: 1, id: 86, uuid: 10, rem: 3},
+			{kind: "estvia", g: 2, id: 12, uuid: 11, rem: 3}, {kind: "shutdown"}, {kind: "estvia", g: 1, id: 87, uuid: 7, rem: 2}, {kind: "estvia", g: 2, id: 88, uuid: 7, rem: 2},
+			start, {kind: "estvia", g: 2, id: 89, uuid: 7, rem: 2}, {kind: "estvia", g: 1, id: 90, uuid: 7, rem: 2}, {kind: "estvia", g: 3, id: 21, uuid: 7, rem: 2}}},
 		// two transports on one bus: links from S1 and from S2 to the same remote peer, a link
 		// between the two local identities, self links of each
 		{"two-controllers", []op{start, startB, L("est", 1, 7, 2), LB("est", 11, 7, 2), L("est", 2, 8, peerB), LB("est", 12, 8, peerA), LB("est", 13, 9, peerB), L("est", 3, 9, peerA), LB("est", 14, 10, 3)}},
+		// one identity, two transports: the same uuids in both, a request from that identity yields the links of
+		// both, a link to the identity itself is a self link on either
+		{"two-controllers", []op{start, {kind: "start", c: 1, lp: peerA}, L("est", 1, 7, 2), LB("est", 11, 7, 2), LB("est", 12, 8, 3), L("est", 2, 8, peerB), LB("est", 13, 9, peerA), L("est", 3, 9, peerA), LB("lost", 11, 7, 2)}},
 		{"two-controllers", []op{startB, start, LB("est", 11, 7, 2), LB("est", 12, 8, 2), L("est", 1, 7, 3), LB("lost", 11, 7, 2), {kind: "shutdown", c: 1}}},
 		// concurrency sentinels (ungated: the goroutines leave a spin barrier together; gated: their
 		// first events pile up behind the held lock)
